@@ -102,7 +102,10 @@ class ParticleReleaser(Iterator[pd.DataFrame]):
         # With warm start skip release at start time (already accounted for)
         if warm_start_file:
             logging.debug("warm start in release")
-            self._df = self._df[self._df.index > self.start_time]
+            if timer.time_reversal:
+                self._df = self._df[self._df.index < self.start_time]
+            else:
+                self._df = self._df[self._df.index > self.start_time]
 
         # Avoid simulations without particles
         # Cold start and all particles released before start
